@@ -6,6 +6,7 @@ import (
 	"os"
 	"path/filepath"
 	"strings"
+	"unicode/utf8"
 
 	"github.com/apparentlymart/go-versions/versions"
 	"github.com/hashicorp/go-slug/sourceaddrs"
@@ -151,11 +152,26 @@ func manifestHandler(raw json.RawMessage) (any, error) {
 			paths = append(paths, rel)
 		}
 	}
+	// directories that some package address currently maps to (by the forward table)
+	liveDirs := map[string]bool{}
+	for _, pk := range b.RemotePackages() {
+		if p, err := b.LocalPathForRemoteSource(pk.SourceAddr("")); err == nil && strings.HasPrefix(p, root+"/") {
+			first, _, _ := strings.Cut(strings.TrimPrefix(p, root+"/"), "/")
+			liveDirs[first] = true
+		}
+	}
 	for _, p := range paths {
 		guardf("SourceForLocalPath", func() {
 			src, err := b.SourceForLocalPath(p)
 			out.Answers = append(out.Answers, strings.ReplaceAll(fmt.Sprintf("rev %q => %v err=%v", p, src, err != nil), root, "<ROOT>"))
 			if err != nil {
+				if abs, e := filepath.Abs(p); e == nil && strings.HasPrefix(filepath.Clean(abs), root+"/") {
+					rel := strings.TrimPrefix(filepath.Clean(abs), root+"/")
+					first, rest, _ := strings.Cut(rel, "/")
+					if liveDirs[first] && utf8.ValidString(rest) {
+						fact("path %q lies inside package directory %q (a package address maps to it) but is reported as not belonging: %v", strings.Replace(p, root, "<ROOT>", 1), first, err)
+					}
+				}
 				return
 			}
 			out.Inverse++
@@ -167,6 +183,56 @@ func manifestHandler(raw json.RawMessage) (any, error) {
 				fact("SourceForLocalPath(%q) = %s maps back to %q", strings.Replace(p, root, "<ROOT>", 1), src, strings.Replace(back, root, "<ROOT>", 1))
 			}
 		})
+	}
+	// what the bundle hands out must not be its own working storage: overwrite every
+	// element of every slice it returned and ask the same questions again
+	{
+		before := append([]string{}, out.Answers...)
+		guardf("mutating returned slices", func() {
+			pk := b.RemotePackages()
+			for i := range pk {
+				pk[i] = pk[0]
+			}
+			rp := b.RegistryPackages()
+			rpCopy := append(rp[:0:0], rp...)
+			for _, r := range rpCopy {
+				vs := b.RegistryPackageVersions(r)
+				for i := range vs {
+					vs[i] = vs[0]
+				}
+			}
+			for i := range rp {
+				rp[i] = rp[0]
+			}
+		})
+		var after []string
+		for _, a := range probes {
+			if _, isLocal := a.(sourceaddrs.LocalSource); isLocal {
+				continue
+			}
+			guardf("LocalPathForSource", func() {
+				p, err := b.LocalPathForSource(a)
+				after = append(after, strings.ReplaceAll(fmt.Sprintf("fwd %v => %q err=%v", a, p, err != nil), root, "<ROOT>"))
+			})
+		}
+		for _, p := range paths {
+			guardf("SourceForLocalPath", func() {
+				src, err := b.SourceForLocalPath(p)
+				after = append(after, strings.ReplaceAll(fmt.Sprintf("rev %q => %v err=%v", p, src, err != nil), root, "<ROOT>"))
+			})
+		}
+		if strings.Join(before, "\n") != strings.Join(after, "\n") {
+			for i := range before {
+				if i >= len(after) || before[i] != after[i] {
+					got := "(missing)"
+					if i < len(after) {
+						got = after[i]
+					}
+					fact("after the caller overwrote the elements of the slices RemotePackages/RegistryPackages/RegistryPackageVersions had returned, the bundle answers differently: %s became %s", before[i], got)
+					break
+				}
+			}
+		}
 	}
 	// paths that do not belong to any package
 	for _, p := range []string{root, root + "/", filepath.Join(root, "terraform-sources.json"), filepath.Join(root, "unknown-dir", "x"), filepath.Join(root, "d1zz", "x"), filepath.Join(root, "d1-other"), filepath.Join(root, "d"), filepath.Dir(root), filepath.Join(filepath.Dir(root), "bundle-evil", "d1"), "/", filepath.Join(root, "..", "bundle-evil")} {
@@ -303,6 +369,16 @@ func c18Docs(thorough bool) (docs []ManifestArg) {
 	add("aliases sharing one dir, equal length", manifestDoc("1", []mPkg{{"git::https://example.com/x.git", "d1", "", ""}, {"git::https://example.com/y.git", "d1", "", ""}}, ""))
 	add("prefix-sharing directory names", manifestDoc("1", []mPkg{{mA, "d1", "", ""}, {mAalias, "d1x", "", ""}}, ""))
 	add("prefix-sharing directory names (longer address owns the shorter dir)", manifestDoc("1", []mPkg{{mAalias, "d1", "", ""}, {mA, "d1x", "", ""}}, ""))
+	// three package entries: every way of spreading three addresses (one repeated) over two directories, in every order
+	for _, a1 := range []string{mA, mAalias, mB} {
+		for _, a2 := range []string{mA, mAalias, mB} {
+			for _, a3 := range []string{mA, mAalias} {
+				for _, ds := range [][3]string{{"d1", "d1", "d2"}, {"d1", "d2", "d1"}, {"d2", "d1", "d1"}, {"d1", "d1", "d1"}, {"d1", "d2", "d2"}} {
+					add(fmt.Sprintf("three entries %s->%s %s->%s %s->%s", a1, ds[0], a2, ds[1], a3, ds[2]), manifestDoc("1", []mPkg{{a1, ds[0], "", ""}, {a2, ds[1], "", ""}, {a3, ds[2], "", ""}}, ""))
+				}
+			}
+		}
+	}
 	add("three aliases", manifestDoc("1", []mPkg{{mA, "d1", "", ""}, {mAalias, "d1", "", ""}, {mB, "d1", "", ""}}, ""))
 	return
 }
